@@ -35,6 +35,7 @@ Ops(s) ==
   \cup {[op |-> "fill", tgt |-> t, v |-> v] : t \in Names, v \in Vals \ {0}}
   \cup {[op |-> "clone_to_other", tgt |-> t] : t \in Names}
   \cup {[op |-> "clone_from", tgt |-> t] : t \in Names}
+  \cup {[op |-> "from_rows_other", tgt |-> t] : t \in Names}
   \cup {[op |-> oo, tgt |-> "a", i |-> ij[1], j |-> ij[2], v |-> 1] :
             oo \in {"get_oob", "set_oob"}, ij \in {<<1, C + 1>>, <<MaxRows + 1, 1>>, <<2, C + 1>>}}
   \cup {[op |-> "iter_ends", tgt |-> "a", pat |-> p, mutable |-> mu] :
@@ -58,6 +59,7 @@ IStep(is, o) ==
     [] o.op = "fill"           -> [is EXCEPT ![o.tgt] = IFill(m, o.v)]
     [] o.op \in {"clone_to_other", "clone_from"}
                                -> [is EXCEPT ![Other(o.tgt)] = [i \in 1..Len(m) |-> PadRow(m[i])]]
+    [] o.op = "from_rows_other" -> [is EXCEPT ![o.tgt] = [i \in 1..Len(is[Other(o.tgt)]) |-> PadRow(is[Other(o.tgt)][i])]]
     [] o.op = "iter_mut_bump"  -> [is EXCEPT ![o.tgt] =
                                     [i \in 1..Len(m) |-> [j \in 1..Stride |->
                                         IF j <= C THEN (m[i][j] + 1) % K ELSE m[i][j]]]]
@@ -82,7 +84,7 @@ New     == \E o \in Ops(st) : o.op \in {"new", "with_capacity"} /\ Do(o)
 Resize  == \E o \in Ops(st) : o.op = "resize" /\ Do(o)
 SetC    == \E o \in Ops(st) : o.op = "set" /\ Do(o)
 Fill    == \E o \in Ops(st) : o.op = "fill" /\ Do(o)
-CloneOp == \E o \in Ops(st) : o.op \in {"clone_to_other", "clone_from"} /\ Do(o)
+CloneOp == \E o \in Ops(st) : o.op \in {"clone_to_other", "clone_from", "from_rows_other"} /\ Do(o)
 Observe == \E o \in Ops(st) : o.op \in {"iter", "iter_rev", "eq", "iter_mut_bump", "reserve", "iter_ends", "get_oob", "set_oob"} /\ Do(o)
 
 Next == New \/ Resize \/ SetC \/ Fill \/ CloneOp \/ Observe
@@ -106,6 +108,7 @@ NewDefault == last.op.op \in {"resize", "new", "with_capacity"} =>
                  (last.op.op # "resize" \/ i > Len(last.pre[last.op.tgt]))
                     => st[last.op.tgt][i] = ConstRow(C, 0)
 CloneEq  == last.op.op \in {"clone_to_other", "clone_from"} => st.a = st.b
+CloneEq2 == last.op.op = "from_rows_other" => st.a = st.b /\ st[Other(last.op.tgt)] = last.pre[Other(last.op.tgt)]
 Untouched == last.op.op \notin {"clone_to_other", "clone_from", "init"}
                => st[Other(last.op.tgt)] = last.pre[Other(last.op.tgt)]
 IterOrder == /\ last.op.op = "iter" => last.obs = st.a
